@@ -16,7 +16,8 @@ keyframe is missing" needs from `sendSequence`:
 * `C20_replay_includes_last`, `C20_replay_length`;
 * `C20_replay_prefix` — in every case (cache misses, a failing write) what is written is a prefix
   of that list: in order, nothing twice, nothing outside the range;
-* `C20_replay_nothing_backwards` — when `kf` is "after" `last` nothing is written.
+* `C20_replay_nothing_backwards` — when `kf` is "after" `last` nothing is written;
+* `C20_replay_loop_test` — the model's loop test `dist < 32768` is the code's `((last - seqno) & 0x8000) == 0`.
 -/
 namespace Galene.Props.C20Replay
 open Galene.Model.SendSeq
@@ -144,6 +145,35 @@ theorem C20_replay_nothing_backwards (kf last : Nat) (cached : Nat → Bool) (fa
   unfold replay loop
   have : dist last (kf % 65536) = dist last kf := by unfold dist; simp
   simp [this, h]
+
+/-! ### the loop condition as the code writes it -/
+
+/-- For a 16-bit value, the code's test `(x & 0x8000) == 0` is the model's `x < 32768`. -/
+theorem C20_replay_mask_reading (x : Nat) (hx : x < 65536) : (x &&& 0x8000 = 0) ↔ x < 32768 := by
+  have h2 : (0x8000 : Nat) = 2 ^ 15 := by decide
+  have hb : x.testBit 15 = decide (x ≥ 32768) := by
+    rw [Nat.testBit_eq_decide_div_mod_eq]
+    have : x / 2 ^ 15 % 2 = 1 ↔ x ≥ 32768 := by omega
+    simp [this]
+  constructor
+  · intro h
+    have h15 : (x &&& 0x8000).testBit 15 = false := by rw [h]; simp
+    rw [Nat.testBit_and, hb, h2, Nat.testBit_two_pow_self] at h15
+    simp at h15; omega
+  · intro h
+    apply Nat.eq_of_testBit_eq
+    intro i
+    rw [Nat.testBit_and, h2, Nat.testBit_two_pow]
+    by_cases hi : 15 = i
+    · subst hi; simp [hb]; omega
+    · simp [hi]
+
+/-- `last - seqno` in uint16 arithmetic is a 16-bit value, so the reading above applies to the loop test. -/
+theorem dist_lt (last seqno : Nat) : dist last seqno < 65536 := by unfold dist; omega
+
+theorem C20_replay_loop_test (last seqno : Nat) :
+    (dist last seqno &&& 0x8000 = 0) ↔ dist last seqno < 32768 :=
+  C20_replay_mask_reading _ (dist_lt _ _)
 
 -- non-vacuity: across the 16-bit wrap, everything cached
 example : replay 65534 1 (fun _ => true) none = [65534, 65535, 0, 1] := by decide
